@@ -234,6 +234,13 @@ func genC04(r *Rand, p *Plan, tier string) {
 			switch r.Intn(8) {
 			case 0: // every truncation is a connection cut at that byte
 				tr := r.Intn(len(w))
+				if r.Chance(35) {
+					// cuts on and next to the header/body boundary and the end of the packet
+					tr = PickOf(r, 0, 1, 11, 12, 13, len(w)-1)
+					if tr >= len(w) {
+						tr = len(w) - 1
+					}
+				}
 				pk.Trunc = &tr
 			case 1: // a bit flipped in transit: header and length fields, or body
 				bit := r.Intn(8 * len(w))
